@@ -241,7 +241,12 @@ fn gen_failing(rng: &mut Rng, uid: i64) -> (&'static str, String) {
 }
 
 fn gen_ok(rng: &mut Rng, uid: i64) -> String {
-    match rng.below(4) {
+    match rng.below(8) {
+        // label changes buffered by the transaction before the failing statement
+        4 => format!("CREATE (:G:H {{uid: {uid}}})"),
+        5 => format!("MATCH (n:Q {{uid: {}}}) SET n:Marked", 1 + rng.below(3)),
+        6 => "MATCH (n:Q {uid: 3}) REMOVE n:Extra".to_string(),
+        7 => format!("MATCH (n:Q {{uid: {}}}) SET n:Marked:Seen REMOVE n:Extra", 1 + rng.below(3)),
         0 => format!("CREATE (:G {{uid: {uid}}})"),
         1 => "MATCH (n:Q) SET n.step = coalesce(n.step, 0) + 1".to_string(),
         2 => format!("MERGE (:G {{uid: {}}})", uid % 3 + 50),
@@ -275,8 +280,11 @@ fn c13_case(seed: u64, k: usize, out: &mut CaseOut) -> Option<Violation> {
             with.push((gen_ok(&mut rng, uid), false));
         }
     }
-    let setup = ["CREATE (:Q {uid: 1}), (:Q {uid: 2}), (:Q {uid: 3})", "MATCH (a:Q {uid: 1}), (b:Q {uid: 2}) CREATE (a)-[:S]->(b)"];
+    let setup = ["CREATE (:Q {uid: 1}), (:Q {uid: 2}), (:Q:Extra {uid: 3})", "MATCH (a:Q {uid: 1}), (b:Q {uid: 2}) CREATE (a)-[:S]->(b)"];
     let (da, db_) = (ScratchDir::new("c13a"), ScratchDir::new("c13b"));
+    // the labels as the running process shows them after the script (reopening loses secondary
+    // labels on both sides alike — the C04 finding — so the files alone would hide label effects)
+    let live_labels: std::cell::RefCell<Vec<String>> = std::cell::RefCell::new(Vec::new());
     // returns (did the failing statement fail?, errors of other statements)
     let run = |dir: &ScratchDir, include_failing: bool| -> Result<(bool, Vec<String>), String> {
         let c = CDb::open(&dir.db_base()).map_err(|e| e.message)?;
@@ -313,6 +321,23 @@ fn c13_case(seed: u64, k: usize, out: &mut CaseOut) -> Option<Violation> {
                 }
             }
         }
+        let live = c.query("MATCH (n) RETURN n.uid AS u, labels(n) AS l", None).map(|j| {
+            let mut rows: Vec<String> = j
+                .as_array()
+                .map(|a| {
+                    a.iter()
+                        .map(|r| {
+                            let mut ls: Vec<String> = r["l"].as_array().map(|x| x.iter().filter_map(|s| s.as_str().map(|s| s.to_string())).collect()).unwrap_or_default();
+                            ls.sort();
+                            format!("{}:{}", r["u"], ls.join("+"))
+                        })
+                        .collect()
+                })
+                .unwrap_or_default();
+            rows.sort();
+            rows.join(" ")
+        });
+        live_labels.borrow_mut().push(live.unwrap_or_else(|e| format!("query failed: {}", e.message)));
         c.close().map_err(|e| e.message)?;
         Ok((failed, other))
     };
@@ -346,6 +371,15 @@ fn c13_case(seed: u64, k: usize, out: &mut CaseOut) -> Option<Violation> {
         }
     };
     let d = diff_facts(&vb, &va, usize::MAX);
+    let live = live_labels.borrow();
+    if d.is_empty() && ra.1.is_empty() && live.len() == 2 && live[0] != live[1] {
+        return Some(Violation {
+            signature: format!("C13|failed-statement-left-effects:labels-in-the-running-process|{fkind}:{}", if in_txn { "explicit-transaction" } else { "auto-commit" }),
+            summary: format!("the statement failed, yet the labels shown by the running process differ from the run without it: with it [{}], without it [{}]", live[0], live[1]),
+            detail: json!({"setup": setup, "script": with.iter().map(|(s, f)| json!({"statement": s, "fails": f})).collect::<Vec<_>>(), "mode": if in_txn { "ndb_begin_write + ndb_txn_query* + ndb_txn_commit" } else { "ndb_execute_write" }}),
+            replay: json!({"engine":"cyphermon","property":"C13","seed":seed,"case":k}),
+        });
+    }
     if !d.is_empty() || !ra.1.is_empty() {
         return Some(Violation {
             signature: format!("C13|failed-statement-left-effects:{}|{fkind}:{}", if d.is_empty() { "later-statement-failed".into() } else { diff_signature(&d) }, if in_txn { "explicit-transaction" } else { "auto-commit" }),
